@@ -476,6 +476,12 @@ package tls
 //@   at before call Bytes#0: assert raw_len: callres(bytes.Len, 0) == 4 + helloLen
 //@   ensures raw_bytes: ret == nil ==> hello.Raw == callres(Bytes, 0) && len(hello.Raw) == callres(bytes.Len, 0)
 //@   ensures raw_nopad: ret == nil && !haspad ==> len(hello.Raw) == 4 + hdr + ite(n > 0, 2 + extSum(n), 0)
+//@   at before call Write#2: assert vers_as_given: val(arg2) == hello.Vers
+//@   at before call Write#3: assert random_as_given: arg2.([]byte) == hello.Random
+//@   at before call Write#5: assert sid_as_given: arg2.([]byte) == hello.SessionId
+//@   at before call Write#7: assert suite_as_given: val(arg2) == hello.CipherSuites[$k]
+//@   at before call Write#9: assert compression_as_given: arg2.([]uint8) == hello.CompressionMethods
+//@   note *_as_given (C01: every edit of the hello's fields is visible in the bytes): the values handed to the serialiser are the current fields of HandshakeState.Hello, element by element for the cipher suites
 //@   loop 0 invariant -1 <= $rangeindex && $rangeindex < n
 //@   loop 0 invariant extensionsLen == extSum($k)
 //@   loop 0 invariant paddingExt == nil <==> forall j in 0..$k: !ispad(exts[j])
